@@ -533,6 +533,50 @@ Proof.
 Qed.
 
 (* ------------------------------------------------------------------------------------------ *)
+(* the recording reader (non-seekable input): every read of the loop body is served from the   *)
+(* bytes genops has already taken, so the loop is the loop over a random-access buffer          *)
+(* ------------------------------------------------------------------------------------------ *)
+Lemma read_at_firstn : forall buf m p n, p + n <= m -> read_at (firstn m buf) p n = read_at buf p n.
+Proof.
+  intros buf m p n H. unfold read_at. rewrite skipn_firstn_comm, firstn_firstn.
+  replace (Nat.min n (m - p)) with n by lia. reflexivity.
+Qed.
+
+(* one iteration: the back-fill of the previous opcode and the new opcode's data, computed from the
+   recorded bytes only, are what a random-access stream over the whole input would have given *)
+Lemma loop_step_from_recorded : forall buf t acc, tok_ok buf t ->
+  backfill (recorded buf t) acc (t_pos t) = backfill buf acc (t_pos t) /\
+  immediate_data (recorded buf t) t = immediate_data buf t.
+Proof.
+  intros buf t acc OK. unfold recorded. split.
+  - unfold backfill. destruct acc as [|prev older]; [reflexivity|].
+    destruct (o_data prev); [reflexivity|].
+    destruct (Nat.ltb (o_pos prev) (t_pos t)) eqn:L; [|reflexivity].
+    apply Nat.ltb_lt in L. rewrite read_at_firstn by lia. reflexivity.
+  - unfold immediate_data. destruct (argless (t_row t)); [reflexivity|].
+    destruct (Z.ltb 0 (row_n (t_row t))) eqn:P; [|reflexivity].
+    apply Z.ltb_lt in P. rewrite <- (fixed_len _ _ OK P).
+    rewrite read_at_firstn by lia. reflexivity.
+Qed.
+
+Lemma load_loop_rec_eq : forall buf ts st acc, Forall (tok_ok buf) ts ->
+  load_loop_rec buf ts st acc = load_loop buf ts st acc.
+Proof.
+  intros buf ts st. induction ts as [|t more IH]; intros acc F; [reflexivity|].
+  inversion F as [|x l OK F']; subst. cbn [load_loop_rec load_loop].
+  destruct (loop_step_from_recorded buf t acc OK) as [-> ->].
+  destruct (immediate_data buf t); [|reflexivity].
+  destruct (row_has_class (t_row t)); [|reflexivity]. apply IH. exact F'.
+Qed.
+
+Lemma load_stream_rec_eq : forall buf start, load_stream_rec buf start = load_stream buf start.
+Proof.
+  intros buf start. unfold load_stream_rec, load_stream.
+  destruct (genops_at buf start) as [ts st] eqn:G. unfold genops_at in G.
+  rewrite (load_loop_rec_eq buf ts st [] (chain_forall _ _ _ (genops_chain _ _ _ _ _ G))). reflexivity.
+Qed.
+
+(* ------------------------------------------------------------------------------------------ *)
 (* dumps                                                                                      *)
 (* ------------------------------------------------------------------------------------------ *)
 Lemma dumps_app : forall a b x y, dumps a = Ok x -> dumps b = Ok y -> dumps (a ++ b) = Ok (x ++ y).
@@ -859,23 +903,35 @@ Proof.
 Qed.
 
 Lemma nonseekable_exact : forall bs off r,
-  load_model KNonSeekable bs off = LOk r -> off <= List.length bs ->
+  load_model KNonSeekable bs off = LOk r ->
   dumps (l_ops r) = Ok (firstn (l_end r) (skipn off bs)) /\
   ends_in_stop (l_ops r) (l_end r) /\ starts_at (l_ops r) 0 /\
   0 < l_end r /\ off + l_end r <= List.length bs /\
-  l_caller r = Some (List.length bs) /\ caller_rest bs r = Some [] /\
-  (skipn (off + l_end r) bs <> [] -> caller_rest bs r <> Some (skipn (off + l_end r) bs)).
+  l_caller r = Some (off + l_end r) /\
+  caller_rest bs r = Some (skipn (off + l_end r) bs) /\
+  bs = firstn off bs ++ firstn (l_end r) (skipn off bs) ++ skipn (off + l_end r) bs.
 Proof.
-  intros bs off r H L. unfold load_model in H.
+  intros bs off r H. unfold load_model in H. rewrite load_stream_rec_eq in H.
   destruct (load_stream (skipn off bs) 0) as [[ops e]|er] eqn:LS; [|discriminate].
   inversion H; subst; clear H.
   destruct (load_stream_exact _ _ _ _ LS) as (D & B & ES & SA & _).
   rewrite skipn_length in B.
   cbn [l_ops l_end l_caller]. unfold caller_rest. cbn [l_caller].
   rewrite Nat.sub_0_r in D. unfold read_at in D. cbn [skipn] in D.
-  rewrite Nat.max_r by lia. rewrite skipn_all.
   repeat split; try assumption; try lia.
-  intros NE X. inversion X. congruence.
+  rewrite <- (firstn_skipn off bs) at 1. f_equal.
+  rewrite <- (firstn_skipn e (skipn off bs)) at 1. f_equal.
+  rewrite skipn_skipn'. f_equal. lia.
+Qed.
+
+(* the parse of a non-seekable input is the parse of the bytes object holding what the stream held *)
+Lemma nonseekable_as_bytes_model : forall bs off r,
+  load_model KNonSeekable bs off = LOk r ->
+  load_model KBytes (skipn off bs) 0 = LOk (mkLoaded (l_ops r) (l_end r) None).
+Proof.
+  intros bs off r H. unfold load_model in *. rewrite load_stream_rec_eq in H.
+  destruct (load_stream (skipn off bs) 0) as [[ops e]|x] eqn:E; [|discriminate].
+  inversion H; subst. reflexivity.
 Qed.
 
 Lemma shift_tok_0 : forall ts, map (shift_tok 0) ts = ts.
@@ -982,6 +1038,21 @@ Lemma stacked_seekable_partition : forall items pre tail,
 Proof.
   intros items pre tail NE F E. split; [|apply shift_parts_spec; exact F].
   unfold stacked_load. apply stacked_stream_concat; assumption.
+Qed.
+
+(* a non-seekable stream that has already handed out [pre]: positions count from the first pickle *)
+Lemma stacked_nonseekable_partition : forall items pre tail,
+  items <> [] ->
+  Forall (fun bp => complete (fst bp) (snd bp)) items ->
+  load_stream (List.concat (map fst items) ++ tail) (List.length (List.concat (map fst items))) = LErr LEmpty ->
+  stacked_load KNonSeekable (pre ++ List.concat (map fst items) ++ tail) (List.length pre)
+    = LOk (shift_parts 0 items, List.length (List.concat (map fst items))) /\
+  List.length (shift_parts 0 items) = List.length items /\
+  Forall2 (fun part bp => dumps part = Ok (fst bp)) (shift_parts 0 items) items.
+Proof.
+  intros items pre tail NE F E. split; [|apply shift_parts_spec; exact F].
+  unfold stacked_load. rewrite skipn_app, skipn_all, Nat.sub_diag. cbn [skipn app].
+  exact (stacked_stream_concat items [] tail NE F E).
 Qed.
 
 Lemma stacked_stream_sound : forall buf start parts e,
